@@ -6,10 +6,27 @@ Import ListNotations.
 Local Open Scope Z_scope.
 
 (* the memory-level state represents the abstract state *)
+(* no 16-aligned address carries the used mark *)
+Definition no_marks (m : mem) : Prop := forall n, n mod 16 = 0 -> is_used m n = false.
+
 Definition SR (c : hcfg) (s : hstate) (sa : hastate) : Prop :=
   h_initialized s = ha_initialized sa /\
   (ha_initialized sa = true ->
-   Rep (heap_end c) (h_mem s) (h_bins s) (ha_chunks sa) (ha_bins sa)).
+   Rep (heap_end c) (h_mem s) (h_bins s) (ha_chunks sa) (ha_bins sa)) /\
+  (ha_initialized sa = false -> no_marks (h_mem s)).
+
+Lemma SR_live c s sa : h_initialized s = ha_initialized sa -> ha_initialized sa = true ->
+  Rep (heap_end c) (h_mem s) (h_bins s) (ha_chunks sa) (ha_bins sa) -> SR c s sa.
+Proof. intros H1 H2 H3. split; [exact H1|]. split; [intros _; exact H3 | rewrite H2; discriminate]. Qed.
+
+(* writing 0 creates no mark and destroys the marks it touches *)
+Lemma zero_write_marks m w n : is_used (mset m w 0) n = true -> is_used m n = true /\ w <> n + 16 /\ w <> n + 24.
+Proof.
+  intros H. apply is_used_true in H as [U1 U2].
+  destruct (Z.eq_dec w (n + 16)) as [-> | N1]; [rewrite mget_mset_same in U1; discriminate U1|].
+  destruct (Z.eq_dec w (n + 24)) as [-> | N2]; [rewrite mget_mset_same in U2; discriminate U2|].
+  rewrite mget_mset_other in U1, U2 by auto. split; [apply is_used_true; auto | auto].
+Qed.
 
 Lemma span_le c : hcfg_ok c -> heap_end c - heap_start c <= h_size c.
 Proof.
@@ -20,12 +37,12 @@ Proof.
 Qed.
 
 (* ---------- Heap:add_memory_region ---------- *)
-Lemma init_sim c s : hcfg_ok c ->
+Lemma init_sim c s : hcfg_ok c -> no_marks (h_mem s) ->
   exists bins m, heap_init c s = HOk (mkhstate true bins m) /\
     Rep (heap_end c) m bins [mkchunk (heap_start c) (heap_end c - heap_start c - NODE) false]
         (bins_add empty_bins (heap_end c - heap_start c - NODE) (heap_start c)).
 Proof.
-  intros Hc. pose proof Hc as (HB & Hfit & Hmin). unfold heap_init, heap_end. unfold heap_start.
+  intros Hc Hnm. pose proof Hc as (HB & Hfit & Hmin). unfold heap_init, heap_end. unfold heap_start.
   pose proof NODE_eq as HN. pose proof ALIGN_eq as HA. pose proof MIN_range as HMr. rewrite HN, HA in *.
   assert (H64 : two64 = 18446744073709551616) by reflexivity.
   destruct (align_forward_spec (h_base c) 16 ltac:(exists 4; split; [lia | reflexivity]) ltac:(lia) ltac:(lia)) as [Hr Hm].
@@ -68,17 +85,36 @@ Proof.
     + rewrite bin_nth_upd_other by lia. rewrite bin_get_set_other by lia.
       unfold bin_nth, empty_bins. rewrite nth_repeat_nil. cbn [dll hd]. split; [exact I|].
       unfold bin_get. clear. generalize (Z.to_nat j). induction (Z.to_nat BIN_COUNT) as [|k IH]; intros q; destruct q; cbn; auto.
+  - (* marks: only the end node carries one *)
+    apply marks_step.
+    + constructor; [exact Hm | constructor].
+    + cbn [map c_addr padj_chain]. unfold n_prev_adj, m1, m0, set_used. fold he. unfold he, hsz. split; mm; reflexivity.
+    + unfold n_size, m1, m0, set_used. fold he. unfold he, hsz. mm. reflexivity.
+    + unfold is_used, n_next, n_prev, m1, m0, set_used. fold he. unfold he, hsz. mm. rewrite !Z.eqb_refl. reflexivity.
+    + intros n Hn Hu Hnh Hw.
+      assert (Hh1 : is_hdr he [mkchunk hs sz false] hs) by (left; left; reflexivity).
+      assert (Hh2 : is_hdr he [mkchunk hs sz false] he) by (right; reflexivity).
+      pose proof (Hw hs 0 Hh1 ltac:(auto)). pose proof (Hw hs 8 Hh1 ltac:(auto)). pose proof (Hw hs 16 Hh1 ltac:(auto)). pose proof (Hw hs 24 Hh1 ltac:(auto)).
+      pose proof (Hw he 0 Hh2 ltac:(auto)). pose proof (Hw he 8 Hh2 ltac:(auto)). pose proof (Hw he 16 Hh2 ltac:(auto)). pose proof (Hw he 24 Hh2 ltac:(auto)).
+      assert (Ef : is_used m1 n = is_used (h_mem s) n) by (apply is_used_frame; unfold m1, m0, set_used; fold he; mm; reflexivity).
+      rewrite Ef, (Hnm n Hn) in Hu. discriminate Hu.
 Qed.
 
-(* ---------- HeapAllocatorT:deallocall: the walk that clears the marks ends within the fuel ---------- *)
+(* ---------- HeapAllocatorT:deallocall: the walk that clears the marks ends within the fuel and
+   leaves no mark behind ---------- *)
 Lemma clear_marks_ok he : forall chunks s m fuel,
   tiled s chunks he -> Forall (fun x => n_size m (c_addr x) = c_sz x) chunks ->
   s + NODE + NODE <= two64 \/ chunks = [] -> he + NODE <= two64 -> 0 <= s ->
-  (length chunks < fuel)%nat -> exists m', clear_marks fuel m s he = Some m'.
+  (length chunks < fuel)%nat ->
+  (forall n, n mod 16 = 0 -> is_used m n = true -> In n (map c_addr chunks) \/ n = he) ->
+  exists m', clear_marks fuel m s he = Some m' /\ no_marks m'.
 Proof.
   pose proof NODE_eq as HN.
-  induction chunks as [|x r IH]; intros s m fuel Ht Hs Hb Htop H0 Hf; destruct fuel as [|k]; cbn [length] in Hf; try lia; cbn [clear_marks].
-  - cbn [tiled] in Ht. subst s. rewrite Z.ltb_irrefl. eexists. reflexivity.
+  induction chunks as [|x r IH]; intros s m fuel Ht Hs Hb Htop H0 Hf Hmk; destruct fuel as [|k]; cbn [length] in Hf; try lia; cbn [clear_marks].
+  - cbn [tiled] in Ht. subst s. rewrite Z.ltb_irrefl. eexists. split; [reflexivity|].
+    intros n Hn. destruct (is_used (mset (mset m (he + 16) 0) (he + 24) 0) n) eqn:E; [|reflexivity]. exfalso.
+    apply zero_write_marks in E. destruct E as (E & _ & _). apply zero_write_marks in E. destruct E as (E & N1 & _).
+    destruct (Hmk n Hn E) as [[] | ->]. lia.
   - cbn [tiled] in Ht. destruct Ht as (Ea & Hsz & Ht). pose proof (tiled_le _ _ _ Ht) as Hle.
     assert (E : (s <? he) = true) by (apply Z.ltb_lt; lia). rewrite E.
     pose proof (Forall_inv Hs) as Hx. pose proof (Forall_inv_tail Hs) as Hr. cbn beta in Hx.
@@ -90,6 +126,9 @@ Proof.
       rewrite mget_mset_other by lia. rewrite mget_mset_other by lia. apply Hr. exact Hy.
     + destruct r as [|y r']; [right; reflexivity | left].
       cbn [tiled] in Ht. destruct Ht as (_ & ? & Ht'). apply tiled_le in Ht'. lia.
+    + intros n Hn Hu. apply zero_write_marks in Hu. destruct Hu as (Hu & _ & _). apply zero_write_marks in Hu. destruct Hu as (Hu & N1 & _).
+      destruct (Hmk n Hn Hu) as [Hi | ->]; [|right; reflexivity]. cbn [map In] in Hi. destruct Hi as [Hi | Hi]; [|left; exact Hi].
+      exfalso. rewrite Ea in Hi. lia.
 Qed.
 
 (* ---------- one step ---------- *)
@@ -99,7 +138,7 @@ Lemma cstep_sim c s sa live o :
     cstep c (s, live) o = Some (s', live') /\ hstep c (sa, live) o = Some (sa', live') /\
     hinv c sa' live' /\ SR c s' sa'.
 Proof.
-  intros Hc Hi [Hfl Hrep] Hd.
+  intros Hc Hi (Hfl & Hrep & Hnom) Hd.
   destruct (hstep_ok c sa live o Hc Hi Hd) as (sa' & live' & Hst & Hi').
   pose proof (span_le c Hc) as Hspan.
   pose proof Hst as Hst0.
@@ -112,8 +151,8 @@ Proof.
       destruct (heap_alloc_raw_sim c _ _ _ _ _ _ live n Hi Hrep Hspan Hd) as (bc' & m' & Hca & Hrep').
       rewrite Hca. destruct (ha_alloc_raw (ha_chunks sa) (ha_bins sa) n) as [[ch b] p] eqn:Ea. cbn [fst snd] in *.
       inversion Hst; subst sa' live'. eexists. eexists. eexists. split; [reflexivity|]. split; [exact Hst0|].
-      split; [exact Hi'|]. split; [reflexivity|]. intros _. exact Hrep'.
-    + subst live. destruct (init_sim c s Hc) as (bins0 & m0 & Hin & Hrep0). rewrite Hin.
+      split; [exact Hi'|]. apply SR_live; [reflexivity | reflexivity | exact Hrep'].
+    + subst live. destruct (init_sim c s Hc (Hnom eq_refl)) as (bins0 & m0 & Hin & Hrep0). rewrite Hin.
       rewrite (heap_init_shape c Hc) in Hst. cbn [ha_chunks ha_bins] in Hst.
       destruct (heap_init_ok c Hc) as (ch0 & b0 & Hin0 & Hr0).
       rewrite (heap_init_shape c Hc) in Hin0. inversion Hin0; subst ch0 b0. clear Hin0.
@@ -121,19 +160,19 @@ Proof.
       destruct (heap_alloc_raw_sim c _ _ _ _ _ _ [] n Hr0 Hrep0 Hspan Hd) as (bc' & m' & Hca & Hrep').
       rewrite Hca. destruct (ha_alloc_raw _ _ n) as [[ch b] p] eqn:Ea. cbn [fst snd] in *.
       inversion Hst; subst sa' live'. eexists. eexists. eexists. split; [reflexivity|]. split; [exact Hst0|].
-      split; [exact Hi'|]. split; [reflexivity|]. intros _. exact Hrep'.
+      split; [exact Hi'|]. apply SR_live; [reflexivity | reflexivity | exact Hrep'].
   - (* dealloc *)
     destruct (nth_error live i) as [b|] eqn:Hn.
-    2:{ inversion Hst; subst. eexists. eexists. eexists. split; [reflexivity|]. split; [exact Hst0|]. split; [exact Hi | split; assumption]. }
+    2:{ inversion Hst; subst. eexists. eexists. eexists. split; [reflexivity|]. split; [exact Hst0|]. split; [exact Hi | exact (conj Hfl (conj Hrep Hnom))]. }
     unfold hinv in Hi. destruct (ha_initialized sa) eqn:Ein; [|subst live; destruct i; discriminate].
     specialize (Hrep eq_refl).
     destruct (heap_dealloc_raw_sim _ _ _ _ _ _ live i b Hi Hrep Hn) as (bc' & m' & ch' & ba' & Had & Hcd & Hrep').
     unfold hp_dealloc. rewrite Hcd. unfold ha_dealloc in Hst. rewrite Had in Hst. inversion Hst; subst sa' live'.
     eexists. eexists. eexists. split; [reflexivity|]. split; [exact Hst0|]. split; [exact Hi'|].
-    split; [cbn; rewrite Hfl; symmetry; exact Ein|]. intros _. exact Hrep'.
+    apply SR_live; [cbn; rewrite Hfl; symmetry; exact Ein | exact Ein | exact Hrep'].
   - (* realloc *)
     destruct (nth_error live i) as [b|] eqn:Hn.
-    2:{ inversion Hst; subst. eexists. eexists. eexists. split; [reflexivity|]. split; [exact Hst0|]. split; [exact Hi | split; assumption]. }
+    2:{ inversion Hst; subst. eexists. eexists. eexists. split; [reflexivity|]. split; [exact Hst0|]. split; [exact Hi | exact (conj Hfl (conj Hrep Hnom))]. }
     pose proof Hi as Hi0. unfold hinv in Hi. destruct (ha_initialized sa) eqn:Ein; [|subst live; destruct i; discriminate].
     specialize (Hrep eq_refl). cbn [hop_usize] in Hd. unfold usize in Hd.
     unfold hp_realloc, ensure_init. unfold ha_realloc, ha_ensure_init in Hst. rewrite Hfl, Ein in *.
@@ -142,20 +181,20 @@ Proof.
     + (* same size: the states do not change *)
       destruct (n =? 0).
       * inversion Hst; subst sa' live'. eexists. eexists. eexists. split; [reflexivity|]. split; [exact Hst0|]. split; [exact Hi'|].
-        split; [rewrite Ein; exact Hfl | intros _; exact Hrep].
+        apply SR_live; [rewrite Ein; exact Hfl | exact Ein | exact Hrep].
       * rewrite Hnz in *. inversion Hst; subst sa' live'. eexists. eexists. eexists. split; [reflexivity|]. split; [exact Hst0|].
-        split; [exact Hi'|]. split; [rewrite Ein; exact Hfl | intros _; exact Hrep].
+        split; [exact Hi'|]. apply SR_live; [rewrite Ein; exact Hfl | exact Ein | exact Hrep].
     + destruct (Z.eq_dec n 0) as [-> | Hn0].
       * destruct (heap_dealloc_raw_sim _ _ _ _ _ _ live i b Hi Hrep Hn) as (bc' & m' & ch' & ba' & Had & Hcd & Hrep').
         unfold heap_realloc_raw. unfold ha_realloc_raw in Hst. rewrite Hnz in *. cbn [Z.eqb] in *. rewrite Hcd. rewrite Had in Hst.
         inversion Hst; subst sa' live'. eexists. eexists. eexists. split; [reflexivity|]. split; [exact Hst0|].
-        split; [exact Hi'|]. split; [reflexivity|]. intros _. exact Hrep'.
+        split; [exact Hi'|]. apply SR_live; [reflexivity | reflexivity | exact Hrep'].
       * destruct (heap_realloc_raw_sim c _ _ _ _ _ _ live i b n Hi Hrep Hspan Hn ltac:(lia)) as (bc' & m' & ch' & ba' & q & Har & Hcr & Hrep').
         rewrite Hcr. rewrite Har in Hst. apply Z.eqb_neq in Hn0. rewrite Hn0 in *.
         destruct (q =? 0); inversion Hst; subst sa' live'; eexists; eexists; eexists;
-          (split; [reflexivity|]); (split; [exact Hst0|]); (split; [exact Hi'|]); (split; [reflexivity|]); intros _; exact Hrep'.
+          (split; [reflexivity|]); (split; [exact Hst0|]); (split; [exact Hi'|]); (apply SR_live; [reflexivity | reflexivity | exact Hrep']).
   - inversion Hst; subst.
-    assert (Hda : exists s1, hp_deallocall c s = HOk s1 /\ h_initialized s1 = false).
+    assert (Hda : exists s1, hp_deallocall c s = HOk s1 /\ h_initialized s1 = false /\ no_marks (h_mem s1)).
     { unfold hp_deallocall. rewrite Hfl. unfold hinv in Hi. destruct (ha_initialized sa) eqn:Ein.
       - specialize (Hrep eq_refl). pose proof Hi as [Hpos Htop Ht Hal Hb Hl].
         pose proof (MI_of_inv _ _ _ _ _ _ _ Hi Hrep) as HM. pose proof NODE_eq as HN. pose proof MIN_range.
@@ -163,14 +202,15 @@ Proof.
         { pose proof (chunks_len _ _ _ Ht) as Hcl. unfold heap_fuel. rewrite HN.
           assert (Z.of_nat (length (ha_chunks sa)) <= h_size c / 32) by (apply Z.div_le_lower_bound; lia).
           assert (0 <= h_size c / 32) by lia. lia. }
-        destruct (clear_marks_ok (heap_end c) (ha_chunks sa) (heap_start c) (h_mem s) (heap_fuel c) Ht (rp_sizes _ _ _ _ _ Hrep)) as (m' & Hcm); try lia.
+        destruct (clear_marks_ok (heap_end c) (ha_chunks sa) (heap_start c) (h_mem s) (heap_fuel c) Ht (rp_sizes _ _ _ _ _ Hrep)) as (m' & Hcm & Hnm'); try lia.
         { destruct (ha_chunks sa) as [|x r]; [right; reflexivity | left].
           cbn [tiled] in Ht. destruct Ht as (_ & ? & Ht'). apply tiled_le in Ht'. lia. }
-        rewrite Hcm. eexists. split; reflexivity.
-      - eexists. split; reflexivity. }
-    destruct Hda as (s1 & Hd1 & Hin1). rewrite Hd1.
+        { exact (rp_marks _ _ _ _ _ Hrep). }
+        rewrite Hcm. eexists. split; [reflexivity|]. split; [reflexivity | exact Hnm'].
+      - eexists. split; [reflexivity|]. split; [reflexivity | exact (Hnom eq_refl)]. }
+    destruct Hda as (s1 & Hd1 & Hin1 & Hnm1). rewrite Hd1.
     eexists. eexists. eexists. split; [reflexivity|]. split; [exact Hst0|]. split; [exact Hi'|].
-    split; [exact Hin1|]. cbn. discriminate.
+    split; [exact Hin1|]. split; [cbn; discriminate | intros _; exact Hnm1].
 Qed.
 
 (* ---------- whole histories ---------- *)
@@ -187,7 +227,7 @@ Proof.
 Qed.
 
 Lemma SR_init c : SR c heap_init_state ha_init_state.
-Proof. split; [reflexivity|]. cbn. discriminate. Qed.
+Proof. split; [reflexivity|]. split; [cbn; discriminate|]. intros _ n _. reflexivity. Qed.
 
 (* the memory-level model never panics on valid histories, computes exactly the blocks the
    abstract model computes, and its final memory represents the abstract final state *)
@@ -223,7 +263,7 @@ Proof.
   intros c ops s sa live x Hc Hd Hcr Har Hin Hx Hf.
   destruct (crun_sim c ops heap_init_state ha_init_state [] Hc (hinv_init c) (SR_init c) Hd) as (s0 & sa0 & l0 & H1 & H2 & Hi & Hsr).
   rewrite Hcr in H1. rewrite Har in H2. inversion H1; inversion H2; subst s0 sa0 l0. clear H1 H2.
-  unfold hinv in Hi. rewrite Hin in Hi. destruct Hsr as [_ Hrep]. specialize (Hrep Hin).
+  unfold hinv in Hi. rewrite Hin in Hi. destruct Hsr as (_ & Hrep & _). specialize (Hrep Hin).
   pose proof (MI_of_inv _ _ _ _ _ _ _ Hi Hrep) as HM.
   pose proof Hi as [Hpos Htop Ht Hal Hb Hl]. pose proof NODE_eq as HN. pose proof MIN_range.
   assert (H64 : two64 = 18446744073709551616) by reflexivity.
@@ -240,3 +280,62 @@ Proof.
   rewrite Hu. cbn [Z.eqb]. reflexivity.
 Qed.
 
+
+(* "reports an invalid free instead of corrupting itself", memory level, full strength up to ONE
+   address: after any history, dealloc of ANY non-nil pointer that is not a live block panics,
+   except for the pointer just past the end node (heap_end + NODE, i.e. one past the end of the
+   region) when the heap is initialised.  Covers double frees, pointers of a previous generation
+   (before deallocall), pointers into payloads, into absorbed headers, outside the buffer, ... *)
+Theorem heap_mem_invalid_free_reported_proof : forall c ops s live p,
+  hcfg_ok c -> Forall hop_usize ops ->
+  crun c (heap_init_state, []) ops = Some (s, live) ->
+  0 < p < two64 -> ~ In p (map b_addr live) ->
+  (h_initialized s = true -> p <> heap_end c + NODE) ->
+  hp_dealloc s p = HPanic.
+Proof.
+  intros c ops s live p Hc Hd Hcr Hp Hnl Hne.
+  destruct (crun_sim c ops heap_init_state ha_init_state [] Hc (hinv_init c) (SR_init c) Hd) as (s0 & sa & l0 & H1 & H2 & Hi & Hsr).
+  rewrite Hcr in H1. inversion H1; subst s0 l0. clear H1.
+  pose proof NODE_eq as HN. assert (H64 : two64 = 18446744073709551616) by reflexivity.
+  unfold hp_dealloc, heap_dealloc_raw.
+  assert (E0 : (p =? 0) = false) by (apply Z.eqb_neq; lia). rewrite E0.
+  assert (Eg : get_ptr_node (h_mem s) p = 0); [|rewrite Eg; reflexivity].
+  unfold get_ptr_node. rewrite land_mask_mod by apply align16_pow2. rewrite ALIGN_eq.
+  destruct (p mod 16 =? 0) eqn:Em; [|reflexivity]. apply Z.eqb_eq in Em. cbn [negb].
+  destruct (is_used (h_mem s) (w64 (p - NODE))) eqn:Eu; [|reflexivity]. exfalso.
+  assert (Hnal : w64 (p - NODE) mod 16 = 0).
+  { unfold w64. rewrite HN, H64. Z.div_mod_to_equations. lia. }
+  destruct Hsr as (Hfl & Hrep & Hnom). destruct (ha_initialized sa) eqn:Ein.
+  - specialize (Hrep eq_refl). unfold hinv in Hi. rewrite Ein in Hi.
+    pose proof (MI_of_inv _ _ _ _ _ _ _ Hi Hrep) as HM.
+    pose proof Hi as [Hpos Htop Ht Hal Hb Hl]. pose proof MIN_range.
+    destruct (rp_marks _ _ _ _ _ Hrep _ Hnal Eu) as [Hin | Ehe].
+    + apply in_map_iff in Hin. destruct Hin as (x & Ex & Hx).
+      destruct (chunk_bounds _ _ _ Ht Hal x Hx) as (B1 & B2 & B3 & B4).
+      assert (Epx : p = c_addr x + NODE).
+      { unfold w64 in Ex. rewrite HN, H64 in *. Z.div_mod_to_equations. lia. }
+      assert (Hux : is_used (h_mem s) (c_addr x) = c_used x).
+      { apply (is_used_flag _ _ _ _ _ _ x HM Hx). intros Hf. exists (get_bin_index (c_sz x)).
+        split; [apply get_bin_index_range|]. destruct Hb as (_ & Hb). destruct (Hb _ (get_bin_index_range (c_sz x))) as [_ Hbin].
+        apply Hbin. exists x. auto. }
+      rewrite Ex, Eu in Hux. destruct Hl as (_ & _ & Hl3). apply Hnl. rewrite Epx. apply Hl3; auto.
+    + apply Hne; [rewrite Hfl; reflexivity|].
+      unfold w64 in Ehe. rewrite HN, H64 in *. Z.div_mod_to_equations. lia.
+  - rewrite (Hnom eq_refl _ Hnal) in Eu. discriminate Eu.
+Qed.
+
+(* the remaining address is a genuine exception: the end node carries the used mark, so the pointer
+   just past it is accepted.  HeapAllocator(200) at an address = 8 mod 16 (end node 16-aligned):
+   after alloc(8), dealloc(base + 200) does not panic (known finding; it merges the end node away) *)
+Theorem heap_mem_invalid_free_reported_refuted_proof : ~ heap_mem_invalid_free_reported_full.
+Proof.
+  intros H. pose (c := mkhcfg 8 200).
+  assert (Hc : hcfg_ok c) by (unfold hcfg_ok, c, two64; cbn; lia).
+  assert (Hd : Forall hop_usize [HAlloc 8]) by (constructor; [cbn; unfold usize, two64; lia | constructor]).
+  destruct (crun c (heap_init_state, []) [HAlloc 8]) as [[s live]|] eqn:E; [|vm_compute in E; discriminate E].
+  specialize (H c [HAlloc 8] s live 208 Hc Hd E).
+  vm_compute in E. inversion E; subst s live. clear E.
+  specialize (H eq_refl ltac:(unfold two64; lia)).
+  assert (Hn : ~ In 208 (map b_addr [mkblk 48 8])) by (cbn; intros [Hx | []]; discriminate Hx).
+  specialize (H Hn). vm_compute in H. discriminate H.
+Qed.
